@@ -10,6 +10,7 @@ CLI_PROPS = {"C13", "C14", "C15", "C16", "C17", "C18", "C19", "C20"}
 PLAN = {
     "C01": ["exprparens", "corpus"],
     "C02": ["exprparens", "corpus"],
+    "C04": ["strings", "literals", "corpus"],
     "C05": ["exprparens"],
     "C06": ["exprparens", "corpus"],
     "C07": ["exprparens", "corpus"],
@@ -82,10 +83,54 @@ def src_corpus(tier, seed):
     return cases, {"module": "(corpus: tests/inputs*)", "cases": len(cases), "states": 0, "distinct": 0}
 
 
+def src_strings(tier, seed):
+    cfgs = ["MC_Strings_quick.cfg", "MC_Strings_quick2.cfg"] if tier == "quick" else ["MC_Strings_thorough.cfg", "MC_Strings_thorough2.cfg"]
+    raw, stats = [], {"module": "MC_Strings", "cfg": cfgs, "states": 0, "distinct": 0, "wall": 0}
+    seen = set()
+    for c in cfgs:
+        r, st = tlc_generate("MC_Strings", c, "g_strings")
+        for x in r:
+            k = (x["q"], tuple(x["body"]))
+            if k not in seen:
+                seen.add(k)
+                raw.append(x)
+        stats["states"] += st["states"]; stats["distinct"] += st["distinct"]; stats["wall"] += st["wall"]
+    raw.sort(key=lambda c: (len(c["body"]), c["q"], c["body"]))
+    cases = []
+    for i, c in enumerate(raw):
+        for sx in ("Lua51", "Lua54", "Luau"):
+            d = dict(c)
+            d["id"] = "str%d:%s" % (i, sx)
+            d["syntax"] = sx
+            d["positions"] = ["expr", "callarg", "tablekey", "index", "method"] if len(c["body"]) <= 2 and sx == "Lua54" else ["expr"]
+            cases.append(d)
+    stats["cases"] = len(cases)
+    return cases, stats
+
+
+def src_literals(tier, seed):
+    raw, st = tlc_generate("MC_Literals", "MC_Literals_%s.cfg" % tier, "g_literals")
+    raw.sort(key=lambda c: json.dumps(c, sort_keys=True))
+    cases = []
+    for i, c in enumerate(raw):
+        c["id"] = "lit%d" % i
+        if c["kind"] == "longlit":
+            c["positions"] = ["expr", "callarg", "tablekey", "index", "method"] if len(c["body"]) <= 2 else ["expr", "index"]
+        else:
+            c["positions"] = ["expr"]
+        cases.append(c)
+    return cases, st
+
+
 SOURCES = {
+    "strings": src_strings,
+    "literals": src_literals,
     "exprparens": src_exprparens,
     "corpus": src_corpus,
 }
+
+
+TRACE_SPEC = {"strings": "Trace_Strings", "literals": "Trace_Strings"}
 
 
 def plan(pid):
